@@ -99,3 +99,26 @@ contract("decaylanguage.dec.dec.get_lineshapePW_definitions", types={"parsed_fil
                            ["forall(lambda j: implies(0 <= j < _i, isfresh(lget(d, j)) and isfresh(lget(lget(d, j), 0))))"],
                            "types": {"d": "list"}}},
          returns="list", properties=["C07"])
+
+
+# ---- the DecFileParser methods that delegate to the getters above (C07/C08: queries do not change the parser) ----
+from pyvc.contracts import REG  # noqa: E402
+
+
+def wrapper(method, getter, props):
+    g = REG.contracts["decaylanguage.dec.dec." + getter]
+    sub = lambda src: src.replace("parsed_file", "self._parsed_dec_file")
+    contract("decaylanguage.dec.dec.DecFileParser." + method,
+             requires=["self._parsed_dec_file is None or (typ(self._parsed_dec_file, 'obj:Tree') and wf_file(self._parsed_dec_file))"],
+             ensures=[sub(e) for e in g.ensures_src],
+             raises={"DecFileNotParsed": "self._parsed_dec_file is None"},
+             returns=g.returns, properties=props)
+
+
+wrapper("dict_decays2copy", "get_decays2copy_statements", ["C07", "C08"])
+wrapper("dict_definitions", "get_definitions", ["C07", "C05"])
+wrapper("dict_aliases", "get_aliases", ["C07"])
+wrapper("dict_charge_conjugates", "get_charge_conjugate_defs", ["C07", "C03"])
+wrapper("list_charge_conjugate_decays", "get_charge_conjugate_decays", ["C07", "C03"])
+wrapper("list_lineshapePW_definitions", "get_lineshapePW_definitions", ["C07"])
+wrapper("global_photos_flag", "get_global_photos_flag", ["C07"])
